@@ -24,9 +24,7 @@ ASSUMPTIONS = ["status changes are observed at commit granularity (rows of a rol
 
 def table_cases():
     lib.ensure_repo_on_path()
-    import importlib
     import stabilize.models.status as S
-    importlib.reload(S)
     W = S.WorkflowStatus
     members = list(W)
     pair_cases, samples = [], []
